@@ -39,9 +39,9 @@ Fixpoint exact_string (t : gtype) : string :=
   | TNonNull t' => exact_string t' ++ "!"
   end.
 Definition is_nonnull (t : gtype) : bool := match t with TNonNull _ => true | _ => false end.
-(* custom_arguments._accumulate_return_arguments: f"{final_type.name}!" if is_required else name *)
-Definition type_string (t : gtype) : string :=
-  final_name t ++ (if is_nonnull t then "!" else "").
+(* custom_arguments._accumulate_return_arguments: constant_value = str(arg_value.type)
+   (since fix 54e286b; before: the final type's name with at most one "!") *)
+Definition type_string (t : gtype) : string := exact_string t.
 
 Definition streq := String.eqb.
 Definition lookup_type (s : schema) (n : string) : option tdef :=
@@ -118,9 +118,9 @@ Definition field_meta (c : gconf) (s : schema) (owner : string) (f : fdef) : fie
   let meth := negb (is_nil (fd_args f)) || method_required in
   let py := pyname c (fd_name f) in
   {| fm_py := py; fm_gql := fd_name f;
-     (* generate_product_type_method passes the *processed* name to the constructor;
-        the attribute branch passes org_name *)
-     fm_emit := if meth then py else fd_name f;
+     (* both branches pass org_name to the constructor (generate_product_type_method since fix
+        8a66e7d: `org_name or name`) *)
+     fm_emit := fd_name f;
      fm_method := meth; fm_cls := cls; fm_okind := ok;
      fm_args := map (arg_meta c) (fd_args f) |}.
 
@@ -188,6 +188,12 @@ Fixpoint index_of {X} (p : X -> bool) (l : list X) : option nat :=
   end.
 Definition attr_index (ct : list classmeta) (cls py : string) : option nat :=
   index_of (fun p => streq (fst p) cls && streq (fm_py (snd p)) py) (attrs ct).
+(* what `cls.f` denotes when it is a class attribute: the address of the shared object and the
+   field it was generated from *)
+Definition resolve_attr (ct : list classmeta) (cls py : string) : option (nat * fieldmeta) :=
+  match attr_index ct cls py with
+  | Some k => match nth_error (attrs ct) k with Some p => Some (k, snd p) | None => None end
+  | None => None end.
 Definition fresh_data (name : string) (k : okind) (vars : list var) : ndata :=
   {| d_name := name; d_kind := k; d_vars := vars; d_fmt := []; d_alias := None |}.
 (* the store right after importing the generated modules *)
@@ -223,7 +229,8 @@ Fixpoint call_vars (ams : list argmeta) (args : list (string * json)) : option (
              | None => if am_required am then None (* TypeError: missing positional *) else Some JNull
              end), call_vars r args with
       | Some v, Some vs =>
-          let v' := if am_ser am then ser v else v in
+          (* `ser(x) if x is not None else None` since fix f169519 *)
+          let v' := if am_ser am then (if is_null v then JNull else ser v) else v in
           Some (if is_null v' then vs
                 else {| v_name := am_gql am; v_type := am_type am; v_value := v' |} :: vs)
       | _, _ => None
@@ -253,7 +260,7 @@ Fixpoint eval (e : bexpr) (st : store) {struct e} : option (store * node) :=
     end in
   match e with
   | Attr cls f =>
-      match attr_index ct cls f with Some k => Some (st, Sh k) | None => None end
+      match resolve_attr ct cls f with Some (k, _) => Some (st, Sh k) | None => None end
   | Call cls f args =>
       match find_fm ct cls f with
       | Some fm =>
@@ -408,49 +415,55 @@ Fixpoint to_ast (fuel : nat) (idx : nat) (s : tstate) (n : node) : option (tstat
 (* ------------------------------------------------------------------------------------------ *)
 (* get_formatted_variables, _combine_variables, _build_variable_definitions, the request        *)
 (* ------------------------------------------------------------------------------------------ *)
-Definition own_fmt (st : store) (n : node) : list fvar :=
-  match n with
-  | N d _ _ => d_fmt d
-  | Sh k => match nth_error st k with Some (N d _ _) => d_fmt d | _ => [] end
-  end.
 Definition fmt_entry (fv : fvar) : string * var := (fv_key fv, fv_var fv).
 
-(* own variables, then each DIRECT subfield's own variables, then each fragment member's own
-   variables — the recursive call's result is discarded in the code, so nothing deeper arrives *)
-Definition get_formatted_variables (st : store) (n : node) : list (string * var) :=
-  let go d subs frs :=
-    dupdate (dupdate (map fmt_entry (d_fmt d)) (map fmt_entry (flat_map (own_fmt st) subs)))
-            (map fmt_entry (flat_map (fun fr : string * list node => flat_map (own_fmt st) (snd fr)) frs)) in
-  match n with
-  | N d subs frs => go d subs frs
-  | Sh k => match nth_error st k with Some (N d subs frs) => go d subs frs | _ => [] end
+(* own variables, then .update(subfield.get_formatted_variables()) for every subfield and every
+   fragment member — recursive since fix 18db886.  [fuel] as in to_ast. *)
+Fixpoint get_formatted_variables (fuel : nat) (st : store) (n : node) : list (string * var) :=
+  match fuel with
+  | 0 => []
+  | S f =>
+      let go d (subs : list node) (frs : list (string * list node)) :=
+        dupdate (map fmt_entry (d_fmt d))
+                (flat_map (get_formatted_variables f st) subs ++
+                 flat_map (fun fr : string * list node => flat_map (get_formatted_variables f st) (snd fr)) frs)%list in
+      match n with
+      | N d subs frs => go d subs frs
+      | Sh k => match nth_error st k with Some (N d subs frs) => go d subs frs | _ => [] end
+      end
   end.
 
 Record request := { r_vardefs : list (string * string);     (* $name: Type, in order *)
                     r_sels : list (sel string);
                     r_values : list (string * json) }.
 
-(* _build_selection_set: [field.to_ast(idx) for idx, field in enumerate(fields)], a new used set each *)
-Fixpoint build_sels (fuel : nat) (idx : nat) (st : store) (ns : list node)
-  : option (store * list (sel string * node)) :=
+(* _build_selection_set: used_names = set(); [field.to_ast(idx, used_names) for idx, field in
+   enumerate(fields)] — ONE set for the whole operation since fix 565c1eb *)
+Fixpoint build_sels_from (fuel : nat) (idx : nat) (s : tstate) (ns : list node)
+  : option (tstate * list (sel string * node)) :=
   match ns with
-  | [] => Some (st, [])
+  | [] => Some (s, [])
   | n :: r =>
-      match to_ast fuel idx (st, []) n with
-      | Some ((st1, _), sn) =>
-          match build_sels fuel (S idx) st1 r with
-          | Some (st2, sns) => Some (st2, sn :: sns)
+      match to_ast fuel idx s n with
+      | Some (s1, sn) =>
+          match build_sels_from fuel (S idx) s1 r with
+          | Some (s2, sns) => Some (s2, sn :: sns)
           | None => None end
       | None => None end
   end.
+Definition build_sels (fuel : nat) (idx : nat) (st : store) (ns : list node)
+  : option (store * list (sel string * node)) :=
+  match build_sels_from fuel idx (st, []) ns with
+  | Some ((st1, _), sns) => Some (st1, sns)
+  | None => None end.
 
-Definition combine (st : store) (ns : list node) : list (string * var) :=
-  fold_left (fun acc n => dupdate acc (get_formatted_variables st n)) ns [].
+Definition combine (fuel : nat) (st : store) (ns : list node) : list (string * var) :=
+  fold_left (fun acc n => dupdate acc (get_formatted_variables fuel st n)) ns [].
 
 Definition build_request (fuel : nat) (st : store) (ns : list node) : option (store * request) :=
   match build_sels fuel 0 st ns with
   | Some (st1, sns) =>
-      let comb := combine st1 (map (fun r => snd r) sns) in
+      let comb := combine fuel st1 (map (fun r => snd r) sns) in
       Some (st1, {| r_vardefs := map (fun kv => (fst kv, v_type (snd kv))) comb;
                     r_sels := map (fun r => fst r) sns;
                     r_values := map (fun kv => (fst kv, v_value (snd kv))) comb |})
@@ -503,9 +516,8 @@ Fixpoint ideal (e : bexpr) : option node :=
     end in
   match e with
   | Attr cls f =>
-      match find_fm ct cls f with
-      | Some fm => if fm_method fm then None
-                   else Some (N (fresh_data (fm_gql fm) (fm_okind fm) []) [] [])
+      match resolve_attr ct cls f with
+      | Some (_, fm) => Some (N (fresh_data (fm_gql fm) (fm_okind fm) []) [] [])
       | None => None end
   | Call cls f args =>
       match find_fm ct cls f with
@@ -538,30 +550,24 @@ Fixpoint ideals (l : list bexpr) : option (list node) :=
   end.
 End Ideal.
 
-(* the selection an object tree stands for, arguments carrying [pj var]; shared references are
-   looked up in [st] (one level: shared objects are read as they are) *)
-Fixpoint node_sel {A} (pj : var -> A) (fuel : nat) (st : store) (n : node) : option (sel A) :=
+(* map with failure *)
+Fixpoint omap {X Y} (f : X -> option Y) (l : list X) : option (list Y) :=
+  match l with
+  | [] => Some []
+  | x :: r => match f x, omap f r with Some a, Some b => Some (a :: b) | _, _ => None end
+  end.
+
+(* the selection an (ideal, sharing-free) object tree stands for, arguments carrying [pj var] *)
+Fixpoint node_sel {A} (pj : var -> A) (fuel : nat) (n : node) : option (sel A) :=
   match fuel with
   | 0 => None
   | S f =>
-      let all := fix go (l : list node) : option (list (sel A)) :=
-        match l with
-        | [] => Some []
-        | x :: r => match node_sel pj f st x, go r with
-                    | Some a, Some b => Some (a :: b) | _, _ => None end
-        end in
       match n with
-      | Sh k => match nth_error st k with
-               | Some (N d subs frs) => node_sel pj f st (N d subs frs)
-               | _ => None end
+      | Sh _ => None
       | N d subs frs =>
-          match all subs,
-                (fix gf (l : list (string * list node)) : option (list (sel A)) :=
-                   match l with
-                   | [] => Some []
-                   | fr :: r => match all (snd fr), gf r with
-                                | Some a, Some b => Some (SI (fst fr) a :: b) | _, _ => None end
-                   end) frs with
+          match omap (node_sel pj f) subs,
+                omap (fun fr : string * list node =>
+                        option_map (SI (fst fr)) (omap (node_sel pj f) (snd fr))) frs with
           | Some ss, Some fs =>
               Some (SF (eff_alias (d_alias d)) (d_name d)
                        (map (fun v => (v_name v, pj v)) (d_vars d))
@@ -606,21 +612,14 @@ Definition look_req (rq : request) (vn : string) : option (string * json) :=
   | _, _ => None end.
 Definition tv (v : var) : string * json := (v_type v, v_value v).
 
-Fixpoint node_sels {A} (pj : var -> A) (fuel : nat) (st : store) (l : list node) : option (list (sel A)) :=
-  match l with
-  | [] => Some []
-  | x :: r => match node_sel pj fuel st x, node_sels pj fuel st r with
-              | Some a, Some b => Some (a :: b) | _, _ => None end
-  end.
-
 (* the request the property demands, as resolved selections *)
 Definition ideal_sels (ct : list classmeta) (fuel : nat) (es : list bexpr) : option (list (sel (string * json))) :=
   match ideals ct es with
-  | Some ns => node_sels tv fuel [] ns
+  | Some ns => omap (node_sel tv fuel) ns
   | None => None end.
 
 (* ------------------------------------------------------------------------------------------ *)
-(* Guards = complements of the defect classes (booleans over the class table and expression)   *)
+(* Guard = complement of the one open defect class (F15-shared-mutation)                       *)
 (* ------------------------------------------------------------------------------------------ *)
 (* the receiver of a mutation is a fresh object *)
 Fixpoint recv_fresh (e : bexpr) : bool :=
@@ -641,46 +640,6 @@ Fixpoint g_shared (e : bexpr) : bool :=
   | Fields e0 es => g_shared e0 && all es
   | Alias e0 _ => recv_fresh e0 && g_shared e0
   | On e0 _ es => recv_fresh e0 && g_shared e0 && all es
-  end.
-
-(* per Call guards *)
-Definition call_ok (p : fieldmeta -> list (string * json) -> bool) (ct : list classmeta) : bexpr -> bool :=
-  fix go (e : bexpr) : bool :=
-    let all := fix gl (l : list bexpr) : bool :=
-      match l with [] => true | x :: r => go x && gl r end in
-    match e with
-    | Attr _ _ => true
-    | Call cls f args => match find_fm ct cls f with Some fm => p fm args | None => true end
-    | Fields e0 es => go e0 && all es
-    | Alias e0 _ => go e0
-    | On e0 _ es => go e0 && all es
-    end.
-(* g_names: the constructor receives the GraphQL name *)
-Definition g_names := call_ok (fun fm _ => streq (fm_emit fm) (fm_gql fm)).
-Definition arg_value (am : argmeta) (args : list (string * json)) : json :=
-  match dlookup (am_gql am) args with Some v => v | None => JNull end.
-(* g_types: every argument actually passed has a wrapper-free list type (type string exact) *)
-Definition g_types := call_ok (fun fm args =>
-  forallb (fun am => is_null (arg_value am args) || streq (am_type am) (am_exact am)) (fm_args fm)).
-(* g_ser: no None reaches a serialize() call *)
-Definition g_ser := call_ok (fun fm args =>
-  forallb (fun am => negb (am_ser am && is_null (arg_value am args))) (fm_args fm)).
-
-(* does this Call put any variable on its object? *)
-Definition has_vars (ct : list classmeta) (cls f : string) (args : list (string * json)) : bool :=
-  match find_fm ct cls f with
-  | Some fm => match call_vars (fm_args fm) args with Some (_ :: _) => true | _ => false end
-  | None => false end.
-(* g_depth d: calls carrying variables sit at depth <= d  (top-level field = depth 1) *)
-Fixpoint g_depth (ct : list classmeta) (d : nat) (e : bexpr) : bool :=
-  let all := fix go (d' : nat) (l : list bexpr) : bool :=
-    match l with [] => true | x :: r => g_depth ct d' x && go d' r end in
-  match e with
-  | Attr _ _ => true
-  | Call cls f args => negb (has_vars ct cls f args) || negb (Nat.eqb d 0)
-  | Fields e0 es => g_depth ct d e0 && all (pred d) es
-  | Alias e0 _ => g_depth ct d e0
-  | On e0 _ es => g_depth ct d e0 && all (pred d) es
   end.
 
 (* all formatted variable keys of an annotated object tree (inline part), traversal order *)
@@ -800,8 +759,7 @@ Definition s_ideal (l : list (sel (string * json))) : sexp :=
 Definition FUEL := 64.
 
 Definition guards_sexp (ct : list classmeta) (es : list bexpr) : sexp :=
-  L [sB (forallb g_shared es); sB (forallb (g_names ct) es); sB (forallb (g_types ct) es);
-     sB (forallb (g_ser ct) es); sB (forallb (g_depth ct 2) es)].
+  L [sB (forallb g_shared es)].
 
 (* does the request resolve to the ideal? (the full property on this input, decided) *)
 Definition sel_eqb_sexp (a b : sexp) : bool :=
